@@ -46,6 +46,13 @@ def batch(rng, tier):
         st = "\"%s\"" % "abc"[:ln]
         for ix in (-9, -ln - 1, -ln, -1, 0, ln - 1, ln, ln + 1, 9, 4611686018427387903, -4611686018427387904):
             progs += ["%s[%d]" % (arr, ix), "%s[%d]" % (st, ix), "stel a = %s; a[%d] = 1; a" % (arr, ix), "stel s = %s; s[%d] = \"z\"; s" % (st, ix)]
+    # nesting depths: the answer must not depend on the build profile (nor on a limit that differs between profiles)
+    for d in (64, 127, 128, 129, 130, 200, 255, 256, 257, 400, 512, 600):
+        progs.append("(" * d + "1" + ")" * d)
+        progs.append("[" * d + "]" * d)
+        progs.append("-" * d + "1")
+        progs.append("!" * d + "ja")
+        progs.append("als ja { " * min(d, 400) + "1" + " }" * min(d, 400))
     # values are rendered (print, string) while other threads render theirs: nested, shared and cyclic arrays, many times per
     # evaluation so that evaluations on different threads overlap
     shapes = ["[[1, 2], [3, 4], [5, [6, 7]]]", "[[[[1]]], [[2]], [3]]", "[\"a\", [1.5, [ja, [nee]]]]", "[[], [[]], [[], [[]]]]"]
